@@ -455,3 +455,10 @@ impl<VM: VMBinding> WorkerGroup<VM> {
         ret
     }
 }
+
+/// Set the worker ordinal of the current (harness) thread so that components indexed by
+/// `current_worker_ordinal()` can be driven without a running scheduler.
+#[cfg(feature = "mmtk_verif")]
+pub fn verif_set_worker_ordinal(ordinal: ThreadId) {
+    WORKER_ORDINAL.with(|x| x.store(ordinal, Ordering::SeqCst));
+}
